@@ -557,6 +557,10 @@ Definition init_state (o : op) : S :=
 Definition no_q := mk_qarg false 0.
 Definition upd_dest (o : op) : dest := match o_payvia o with PVStruct => DStruct | _ => DMap end.
 
+(* finisher_api.go Create: a record passed by value is refused with ErrInvalidValue before any callback runs *)
+Definition by_value_struct (o : op) : bool :=
+  match sh_cont (o_shape o) with CStruct => negb (sh_outer_ptr (o_shape o)) | _ => false end.
+
 (* Save on a struct whose primary key is set: Update pipeline (Select "*"), then, when that affected no
    row and returned no error, Session{SkipHooks:true}.Clauses(OnConflict{UpdateAll}).Create(value) *)
 Definition run_save_struct (o : op) (s : S) : S :=
@@ -567,7 +571,8 @@ Definition run_save_struct (o : op) (s : S) : S :=
       let matched := has_row TRecs (m_tag r) (s_tbl s) in
       let s1 := run_pipeline (op_cx o (o_skip o) DSelf) (o_assocs o) no_q update_pipeline s in
       if is_nil (s_err s1) && negb matched
-      then run_pipeline (op_cx o true DSelf) (o_assocs o) no_q create_pipeline s1
+      then (if by_value_struct o then add_err EInvalidValue s1
+            else run_pipeline (op_cx o true DSelf) (o_assocs o) no_q create_pipeline s1)
       else s1
   | [] => s
   end.
@@ -615,7 +620,8 @@ Definition run_create_in_batches (o : op) (b : Z) (s : S) : S :=
 
 Definition run_body (o : op) (s : S) : S :=
   match o_kind o with
-  | OCreate => run_pipeline (op_cx o (o_skip o) DSelf) (o_assocs o) no_q create_pipeline s
+  | OCreate => if by_value_struct o then add_err EInvalidValue s
+               else run_pipeline (op_cx o (o_skip o) DSelf) (o_assocs o) no_q create_pipeline s
   | OSave =>
       match sh_cont (o_shape o) with
       | CStruct => run_save_struct o s
